@@ -13,4 +13,21 @@ extern int G_errno;       /* model of errno */
 extern int G_send_calls;  /* saturating */
 extern int G_mod_mask;    /* last event mask given to async_runtime_modify, -1 = never called */
 extern int G_mod_calls;
+/* add_message / add_vmessage ghost stream view: every byte appended to the ring gets the next
+   sequence number G_app; two arbitrary source positions G_g1 < G_g2 are tracked */
+extern long G_app;                 /* bytes appended to the ring since entry */
+extern long G_n;                   /* data[G_n] == 0 */
+extern long G_g1, G_g2;            /* tracked source positions, G_g1 < G_g2 */
+extern int G_st1, G_st2;           /* data[G_gk] was appended */
+extern long G_seq1, G_seq2;        /* sequence number it got */
+extern int G_crok1, G_crok2;       /* if data[G_gk]=='\n', the byte appended just before it was '\r' */
+extern int G_val1, G_val2;         /* byte value appended for it */
+extern int G_early;                /* the copy loop was left through a break (ring full) */
+extern int G_len_at_break;
+extern long G_endoff;              /* offset of cp when the copy loop was left, -1: function returned from inside it */
+extern int G_lastbyte;             /* last byte appended, -1 none */
+#define C14_TRACK(i, byte) do { \
+    if ((i) == G_g1) { G_st1 = 1; G_seq1 = G_app; G_val1 = (unsigned char)(byte); G_crok1 = ((byte) != '\n') || G_lastbyte == '\r'; } \
+    if ((i) == G_g2) { G_st2 = 1; G_seq2 = G_app; G_val2 = (unsigned char)(byte); G_crok2 = ((byte) != '\n') || G_lastbyte == '\r'; } \
+  } while (0)
 #endif
